@@ -14,6 +14,7 @@ package props
 import (
 	"context"
 	"fmt"
+	"sort"
 	"strconv"
 	"strings"
 	"sync"
@@ -407,4 +408,149 @@ func c05Concurrent(c *lab.Ctx) {
 	c.Count("concurrent-lookups", evals)
 	c.Sample(map[string]interface{}{"readers": 8, "replacements_per_policy": rounds})
 	c.Require("concurrent lookups", evals > 10000, fmt.Sprint(evals))
+}
+
+// ---------------------------------------------------------------------------------------------------------------
+// c05-membership: "only ever returns a host that belongs to the cluster's current host set" across sequences of host-set
+// updates through the cluster manager (replace, append, remove of several addresses in any order, also unknown and duplicate
+// addresses), against a reference set.
+
+func init() { lab.Register("c05-membership", c05Membership) }
+
+func c05Membership(c *lab.Ctx) {
+	c.Rule("per policy (x subset wrapper) histories of 20..60 host-set updates through the cluster manager: replace with 0..9 hosts, append 1..3 (also already present), remove 1..4 addresses in PRNG order (ascending / descending / shuffled ports, unknown and duplicate addresses); after every update the snapshot's host set must equal the reference set and 40 picks must stay inside it; distinct = (policy, operation, list shape, set size)")
+	cm := cluster.NewClusterManagerSingleton(nil, nil, nil)
+	rng := c.Rand("membership")
+	hists := c.Pick(6, 40)
+	n := 0
+	for _, pol := range c05Policies_ {
+		for _, subset := range []bool{false, true} {
+			for hi := 0; hi < hists; hi++ {
+				n++
+				hrng := rng.Fork()
+				if n%c.NBatch != c.Batch {
+					continue
+				}
+				name := fmt.Sprintf("c05m-%s-%v-%d", pol, subset, hi)
+				cc := v2.Cluster{Name: name, LbType: v2.LbType(pol)}
+				if subset {
+					cc.LBSubSetConfig = v2.LBSubsetConfig{FallBackPolicy: 1, SubsetSelectors: [][]string{{"zone"}}}
+				}
+				if err := cm.AddOrUpdatePrimaryCluster(cc); err != nil {
+					c.Inconclusive("add cluster failed")
+					continue
+				}
+				addr := func(i int) string { return fmt.Sprintf("10.5.%d.1:%d", hi%200, 7+i) } // ports 7..26: ":10" sorts before ":8"
+				mk := func(i int) v2.Host {
+					return v2.Host{HostConfig: v2.HostConfig{Address: addr(i), Weight: uint32(1 + i%4)}, MetaData: map[string]string{"zone": []string{"a", "b"}[i%2]}}
+				}
+				model := map[string]bool{}
+				var ops []string
+				steps := 20 + hrng.Intn(41)
+				for si := 0; si < steps; si++ {
+					var desc, shape string
+					switch hrng.Intn(5) {
+					case 0: // replace
+						var hs []v2.Host
+						model = map[string]bool{}
+						for _, i := range hrng.Perm(20)[:hrng.Intn(10)] {
+							hs = append(hs, mk(i))
+							model[addr(i)] = true
+						}
+						err := cm.UpdateClusterHosts(name, hs)
+						desc, shape = fmt.Sprintf("replace(%d hosts, err=%v)", len(hs), err != nil), "replace"
+					case 1: // append
+						var hs []v2.Host
+						for k := 1 + hrng.Intn(3); k > 0; k-- {
+							i := hrng.Intn(20)
+							hs = append(hs, mk(i))
+							model[addr(i)] = true
+						}
+						err := cm.AppendClusterHosts(name, hs)
+						desc, shape = fmt.Sprintf("append(%d hosts, err=%v)", len(hs), err != nil), "append"
+					default: // remove several addresses
+						k := 1 + hrng.Intn(4)
+						var idx []int
+						for _, i := range hrng.Perm(20)[:k] {
+							idx = append(idx, i)
+						}
+						shape = []string{"ascending-ports", "descending-ports", "shuffled"}[hrng.Intn(3)]
+						switch shape {
+						case "ascending-ports":
+							sort.Ints(idx)
+						case "descending-ports":
+							sort.Sort(sort.Reverse(sort.IntSlice(idx)))
+						}
+						var addrs []string
+						for _, i := range idx {
+							addrs = append(addrs, addr(i))
+						}
+						if hrng.Intn(4) == 0 {
+							at := hrng.Intn(len(addrs) + 1)
+							addrs = append(addrs[:at], append([]string{"10.99.99.99:1"}, addrs[at:]...)...) // an address that is no member
+							shape += "+unknown"
+						}
+						if hrng.Intn(6) == 0 {
+							addrs = append(addrs, addrs[0])
+							shape += "+duplicate"
+						}
+						err := cm.RemoveClusterHosts(name, addrs)
+						for _, a := range addrs {
+							delete(model, a)
+						}
+						desc = fmt.Sprintf("remove(%v, err=%v)", addrs, err != nil)
+						shape = "remove/" + shape
+					}
+					ops = append(ops, desc)
+					c.Case("c05 membership %s step=%d %s", name, si, desc)
+					c.Eval(1)
+					snap := cm.GetClusterSnapshot(context.Background(), name)
+					if snap == nil {
+						c.Violation("snapshot-exists", "C05/membership/nil-snapshot", "no snapshot for "+name, nil)
+						break
+					}
+					live := map[string]bool{}
+					snap.HostSet().Range(func(h types.Host) bool { live[h.AddressString()] = true; return true })
+					hist := ops
+					if len(hist) > 8 {
+						hist = hist[len(hist)-8:]
+					}
+					wit := map[string]interface{}{"policy": string(pol), "subset": subset, "last_operations": hist, "live": sortedKeys(live), "reference": sortedKeys(model)}
+					sig := fmt.Sprintf("policy=%s/subset=%v/op=%s", pol, subset, strings.SplitN(shape, "+", 2)[0])
+					if fmt.Sprint(sortedKeys(live)) != fmt.Sprint(sortedKeys(model)) {
+						c.Violation("host-set-is-what-the-updates-say", "C05/membership/host-set-differs/"+sig,
+							fmt.Sprintf("policy %s after %s: the cluster's host set is %v, the update history gives %v", pol, desc, sortedKeys(live), sortedKeys(model)), wit)
+						model = live // judge later steps afresh
+					}
+					ctx := newLbCtx()
+					for k := 0; k < 40; k++ {
+						ctx.route = newHashRoute(uint64(k)*2654435761 + uint64(si))
+						h := snap.LoadBalancer().ChooseHost(ctx)
+						if h == nil {
+							if len(model) > 0 {
+								c.Violation("nil-only-when-none-healthy", "C05/membership/nil-while-members-exist/"+sig, fmt.Sprintf("policy %s after %s: no host although %d healthy members exist", pol, desc, len(model)), wit)
+								break
+							}
+							continue
+						}
+						if !model[h.AddressString()] {
+							c.Violation("answer-is-a-current-member", "C05/membership/removed-host-returned/"+sig,
+								fmt.Sprintf("policy %s after %s: ChooseHost returned %s which is not a member of the current host set %v", pol, desc, h.AddressString(), sortedKeys(model)), wit)
+							break
+						}
+					}
+					c.Distinct(fmt.Sprintf("%s|%v|%s|%d", pol, subset, shape, len(model)))
+				}
+			}
+		}
+	}
+}
+
+func sortedKeys(m map[string]bool) []string {
+	var out []string
+	for k := range m {
+		out = append(out, k)
+	}
+	sort.Strings(out)
+	return out
 }
